@@ -30,8 +30,27 @@ theorem update_eq_set (env : Env) (x : Name) (v : List Char) : Spec.update env x
     · simp [h]
     · simp [h, ih]
 
+theorem digitChar_eq (d : Nat) (h : d < 10) : Char.ofNat ('0'.toNat + d) = digitChar d := by
+  have : d = 0 ∨ d = 1 ∨ d = 2 ∨ d = 3 ∨ d = 4 ∨ d = 5 ∨ d = 6 ∨ d = 7 ∨ d = 8 ∨ d = 9 := by omega
+  rcases this with rfl | rfl | rfl | rfl | rfl | rfl | rfl | rfl | rfl | rfl <;> decide
+
+theorem decimalNat_eq (f : Nat) : ∀ n, Spec.decimalNat f n = natDigits f n := by
+  induction f with
+  | zero => intro n; rfl
+  | succ f ih =>
+    intro n
+    unfold Spec.decimalNat natDigits
+    simp only [digitChar_eq (n % 10) (Nat.mod_lt _ (by decide)), ih]
+    by_cases h : n < 10
+    · simp [h, Nat.mod_eq_of_lt h]
+    · simp [h]
+
+/-- the Spec's decimal numeral is the text the Model's `to_string` writes -/
+theorem decimal_eq_showInt (v : Int) : Spec.decimal v = showInt v := by
+  unfold Spec.decimal showInt; simp only [decimalNat_eq]
+
 theorem writeVar_eq (env : Env) (x : Name) (v : Int) : Spec.writeVar env x v = env.set x (showInt v) := by
-  unfold Spec.writeVar showInt; exact update_eq_set _ _ _
+  unfold Spec.writeVar; rw [decimal_eq_showInt]; exact update_eq_set _ _ _
 
 theorem get_set_ne (env : Env) (x y : Name) (v : List Char) (h : x ≠ y) :
     (env.set y v).get x = env.get x := by
